@@ -12,6 +12,8 @@ type RatModel struct {
 	R *smt.Term // Real value (constant when concrete)
 	F *SymFloat // set when the value came from SetFloat64 of a symbolic float
 	I *smt.Term // set when the value came from SetInt64/SetUint64 (Int term)
+	// IsIntT is the integrality of the value when known as a term.
+	IsIntT *smt.Term
 }
 
 // BigIntModel is the model state of a *big.Int obtained from Rat.Num / Rat.Denom.
@@ -92,8 +94,12 @@ func registerBig(p *Program) {
 			return Tuple{args[0], true}
 		case *AStr:
 			if n, ok := m.jnTexts[s.T]; ok {
-				r, _ := m.jnValue(n)
-				setRat(args[0], &RatModel{R: r})
+				if k, isConst := m.simp(n.JK).Int64(); isConst && k == 0 {
+					setRat(args[0], &RatModel{R: m.Ctx.ToReal(n.JN), I: n.JN})
+					return Tuple{args[0], true}
+				}
+				r, isInt := m.jnValue(n)
+				setRat(args[0], &RatModel{R: r, IsIntT: isInt})
 				return Tuple{args[0], true}
 			}
 		}
@@ -159,6 +165,9 @@ func registerBig(p *Program) {
 		}
 		if a.F != nil && a.F.IsInt != nil {
 			return unTerm(a.F.IsInt)
+		}
+		if a.IsIntT != nil {
+			return unTerm(m.simp(a.IsIntT))
 		}
 		unsupported("Rat.IsInt of symbolic rational")
 		return nil
